@@ -32,7 +32,186 @@ def seed_programs():
         seeds.append(("examples/" + os.path.basename(p), {os.path.basename(p): open(p, "rb").read()}, os.path.basename(p)))
     for name, text in REGRESSION_SEEDS.items():
         seeds.append(("regression/" + name, {"main.ddp": text.encode()}, "main.ddp"))
+    for name, text in FEATURE_SEEDS.items():
+        seeds.append(("feature/" + name, {"main.ddp": text.encode()}, "main.ddp"))
+    for name, text in operator_arity_seeds(root):
+        seeds.append(("feature/" + name, {"main.ddp": text.encode()}, "main.ddp"))
     return seeds
+
+
+def operator_names(root):
+    """the names accepted after 'überlädt den', read from the tree (src/ast/operators.go)"""
+    import re
+    txt = open(os.path.join(root, "src", "ast", "operators.go"), encoding="utf-8").read()
+    return sorted(set(re.findall(r'return "([^"]+)"', txt)))
+
+
+OPERATOR_USES = '''
+Die Zahl a ist 6.
+Die Zahl b ist 3.
+Die Zahl c ist 2.
+Die Zahlen Liste li ist eine Liste, die aus 1, 2, 3 besteht.
+Die Zahl r1 ist a plus b.
+Die Zahl r2 ist a minus b.
+Die Zahl r3 ist a mal b.
+Die Kommazahl r4 ist a durch b.
+Die Zahl r5 ist a modulo b.
+Die Kommazahl r6 ist a hoch b.
+Die Zahl r7 ist -a.
+Die Zahl r8 ist der Betrag von a.
+Die Zahl r9 ist die Länge von li.
+Die Zahl r10 ist a logisch und b.
+Die Zahl r11 ist a logisch oder b.
+Die Zahl r12 ist a logisch kontra b.
+Die Zahl r13 ist logisch nicht a.
+Die Zahl r14 ist a um b Bit nach links verschoben.
+Die Zahl r15 ist a um b Bit nach rechts verschoben.
+Der Wahrheitswert w1 ist a gleich b ist.
+Der Wahrheitswert w2 ist a ungleich b ist.
+Der Wahrheitswert w3 ist a kleiner als b ist.
+Der Wahrheitswert w4 ist a größer als b ist.
+Der Wahrheitswert w5 ist a kleiner als, oder b ist.
+Der Wahrheitswert w6 ist a größer als, oder b ist.
+Der Wahrheitswert w7 ist a zwischen b und c ist.
+Der Wahrheitswert w8 ist nicht w1.
+Der Wahrheitswert w9 ist w1 und w2.
+Der Wahrheitswert w10 ist w1 oder w2.
+Der Wahrheitswert w11 ist entweder w1, oder w2.
+Die Zahl r16 ist li an der Stelle a.
+Die Zahlen Liste l2 ist li bis zum a. Element.
+Die Zahlen Liste l3 ist li ab dem a. Element.
+Die Zahlen Liste l4 ist li im Bereich von a bis b.
+Die Zahlen Liste l5 ist li verkettet mit a.
+Die Zahl r17 ist a, falls w1, ansonsten b.
+Der Text t1 ist a als Text.
+Die Kommazahl r18 ist der Logarithmus von a zur Basis b.
+'''
+
+
+def operator_arity_seeds(root):
+    """every operator name x declared arity 1..3 (Zahl parameters), followed by a use of every operator on Zahl operands:
+    a declaration with the wrong arity is an error, and what follows must still be answered with diagnostics"""
+    out = []
+    for op in operator_names(root):
+        for n in (1, 2, 3):
+            ps = ["p%d" % i for i in range(1, n + 1)]
+            if n == 1:
+                head = "Die Funktion ueberladen mit dem Parameter p1 vom Typ Zahl, gibt eine Zahl zurück, macht:"
+            else:
+                head = "Die Funktion ueberladen mit den Parametern %s vom Typ %s, gibt eine Zahl zurück, macht:" % (
+                    ", ".join(ps[:-1]) + " und " + ps[-1], ", ".join(["Zahl"] * (n - 1)) + " und Zahl")
+            text = head + "\n\tGib 1 zurück.\nUnd überlädt den \"%s\" Operator.\n" % op + OPERATOR_USES
+            out.append(("operator-arity/%s/%d" % (op.replace(" ", "_").replace(".", "").replace(",", ""), n), text))
+    return out
+
+
+# small programs for grammar features the repository's corpus does not use (or uses in one arrangement only)
+FEATURE_SEEDS = {
+    "alias-declarations": '''Binde "Duden/Ausgabe" ein.
+Wir nennen die Kombination aus
+	der Zahl x mit Standardwert 0,
+	der Zahl y mit Standardwert 0,
+einen Punkt, und erstellen sie so:
+	"ein Punkt bei <x> und <y>" oder
+	"der Ursprung"
+Die Funktion summe mit den Parametern a und b vom Typ Zahl und Zahl, gibt eine Zahl zurück, macht:
+	Gib a plus b zurück.
+Und kann so benutzt werden:
+	"die Summe von <a> und <b>"
+Die Zahl kein_name ist 4.
+Der Alias "<a> zusammen mit <b>" steht für die Funktion summe.
+Der Alias "addiere <a> auf <b>" steht für die Funktion summe.
+Der Punkt p ist ein Punkt bei 1 und 2.
+Wenn (x von p) gleich 1 ist, Schreibe (1 zusammen mit 2) auf eine Zeile.
+Sonst Schreibe (addiere 1 auf 2) auf eine Zeile.
+Solange (x von p) kleiner als 3 ist, Speichere (x von p) plus 1 in x von p.
+Für jede Zahl i von 1 bis 3, Schreibe (die Summe von i und kein_name) auf eine Zeile.
+Für jede Zahl e in (eine Liste, die aus 1, 2 besteht), Schreibe e auf eine Zeile.
+''',
+    "list-type-aliases": '''Binde "Duden/Ausgabe" ein.
+Wir nennen eine Zahlen Liste auch eine Zahlenreihe.
+Wir nennen eine Zahlenreihe auch eine Reihe.
+Wir definieren eine Folge als eine Zahlen Liste.
+Wir nennen eine Zahl auch eine Nummer.
+Die Zahlenreihe l ist 3 Mal 7.
+Die Reihe r ist 2 Mal 1.
+Die Nummer Liste nl ist 2 Mal 5.
+Die Zahlenreihe leer ist eine leere Zahlen Liste.
+Die Folge f ist (eine Liste, die aus 1, 2 besteht) als Folge.
+Die Zahlen Liste z ist (die Länge von l) Mal (l an der Stelle 1).
+Schreibe l auf eine Zeile.
+Schreibe (r an der Stelle 2) auf eine Zeile.
+Für jede Zahl e in l, Schreibe e auf eine Zeile.
+''',
+    "generic-kombinationen": '''Binde "Duden/Ausgabe" ein.
+Wir nennen die generische Kombination aus
+	dem T a,
+	dem R b,
+einen Paar, und erstellen sie so:
+	"Paar(<a>, <b>)"
+Wir nennen die generische Kombination aus
+	dem T inhalt,
+eine Kiste, und erstellen sie so:
+	"Kiste(<inhalt>)"
+Wir nennen die generische Kombination aus
+	dem T x mit Standardwert 1,
+	dem T y mit Standardwert 2,
+einen Vektor, und erstellen sie so:
+	"der Nullvektor" oder
+	"Vektor(<x>, <y>)"
+Die generische Funktion erstes mit dem Parameter p vom Typ T-R-Paar, gibt ein T zurück, macht:
+	Gib a von p zurück.
+Und kann so benutzt werden:
+	"das Erste von <p>"
+Die generische Funktion auspacken mit dem Parameter k vom Typ T-Kiste, gibt ein T zurück, macht:
+	Gib inhalt von k zurück.
+Und kann so benutzt werden:
+	"der Inhalt von <k>"
+Die Zahl-Kiste k ist Kiste(1).
+Der Zahl-Text-Paar p ist Paar(1, "zwei").
+Der Zahl-Vektor v ist der Nullvektor.
+Die (Zahl-Kiste)-Kiste kk ist Kiste(k).
+Schreibe (das Erste von p) auf eine Zeile.
+Schreibe (der Inhalt von k) auf eine Zeile.
+Schreibe (der Inhalt von (der Inhalt von kk)) auf eine Zeile.
+Schreibe (x von v) auf eine Zeile.
+''',
+    "declaration-kinds": '''Binde "Duden/Ausgabe" ein.
+Die Konstante grenze ist 10.
+Die öffentliche Zahl zaehler ist 0.
+Die Funktion spaeter_da mit dem Parameter z vom Typ Zahl, gibt eine Zahl zurück,
+wird später definiert
+und kann so benutzt werden:
+	"später <z>"
+Die Funktion aussen mit dem Parameter t vom Typ Text, gibt nichts zurück,
+ist in "fremd.c" definiert
+und kann so benutzt werden:
+	"zeige <t> fremd"
+Die Funktion veraendere mit dem Parameter r vom Typ Zahlen Referenz, gibt nichts zurück, macht:
+	Erhöhe r um grenze.
+Und kann so benutzt werden:
+	"verändere <r>"
+Die Funktion pruefe mit dem Parameter z vom Typ Zahl, gibt einen Wahrheitswert zurück, macht:
+	Gib wahr, wenn z größer als grenze ist, zurück.
+Und kann so benutzt werden:
+	"<z> <!nicht> groß ist"
+Die Funktion spaeter_da macht:
+	Gib z plus 1 zurück.
+verändere zaehler.
+Wenn zaehler groß ist, Schreibe (später zaehler) auf eine Zeile.
+Wenn zaehler nicht groß ist, dann:
+	Schreibe "klein" auf eine Zeile.
+Wenn aber zaehler gleich 3 ist, dann:
+	...
+Sonst:
+	Wiederhole:
+		Verringere zaehler um 1.
+	2 Mal.
+Mache:
+	Erhöhe zaehler um 1.
+Solange zaehler kleiner als 3 ist.
+''',
+}
 
 
 # inputs on which the frontend crashed once (found by the thorough tier, repaired in /repo); kept as seeds of every tier
@@ -69,6 +248,48 @@ Und kann so benutzt werden:
 	"f <p>"
 Schreibe (f (ein leerer Paar)) auf eine Zeile.
 ''',
+    "alias-declaration-as-single-statement": '''Die Funktion foo gibt nichts zurück, macht:
+	Verlasse die Funktion.
+Und kann so benutzt werden:
+	"foo"
+
+Wenn wahr, Der Alias "bar" steht für die Funktion foo.
+''',
+    "alias-for-a-kombination": '''Wir nennen die Kombination aus
+	der Zahl x mit Standardwert 0,
+einen Punkt, und erstellen sie so:
+	"ein Punkt"
+
+Der Alias "bar" steht für die Funktion Punkt.
+''',
+    "generic-parameter-of-another-generic-kombination": '''Wir nennen die generische Kombination aus
+	dem T a,
+	dem R b,
+einen Paar, und erstellen sie so:
+	"Paar(<a>, <b>)"
+
+Wir nennen die generische Kombination aus
+	dem T inhalt,
+eine Kiste, und erstellen sie so:
+	"Kiste(<inhalt>)"
+
+Die generische Funktion erstes mit dem Parameter p vom Typ T-R-Paar, gibt ein T zurück, macht:
+	Gib a von p zurück.
+Und kann so benutzt werden:
+	"das Erste von <p>"
+
+Die Zahl-Kiste k ist Kiste(1).
+Die Zahl z ist das Erste von k.
+''',
+    "operator-overload-wrong-arity": '''Die Funktion addiere mit dem Parameter a vom Typ Zahl, gibt eine Zahl zurück, macht:
+	Gib a zurück.
+Und überlädt den "plus" Operator.
+
+Die Zahl z ist 1 plus 2.
+''',
+    "list-alias-n-mal": '''Wir nennen eine Zahlen Liste auch eine Zahlenreihe.
+Die Zahlenreihe l ist 3 Mal 0.
+''',
 }
 
 
@@ -99,6 +320,28 @@ def tokenize(sources):
     return out
 
 
+SNIPPETS = [
+    ("alias", 'Der Alias "neu <a> und <b>" steht für die Funktion summe.'),
+    ("alias-unknown", 'Der Alias "neu" steht für die Funktion gibts_nicht.'),
+    ("alias-var", 'Der Alias "neu" steht für die Funktion a.'),
+    ("vardecl", 'Die Zahl frisch ist 1.'),
+    ("listdecl", 'Die Zahlen Liste frische_liste ist 2 Mal 0.'),
+    ("const", 'Die Konstante fest ist 3.'),
+    ("typealias", 'Wir nennen eine Zahl auch eine Nummer.'),
+    ("typedef", 'Wir definieren eine Laenge als eine Zahl.'),
+    ("import", 'Binde "Duden/Ausgabe" ein.'),
+    ("return", 'Gib 1 zurück.'),
+    ("break", 'Verlasse die Schleife.'),
+    ("continue", 'Fahre mit der Schleife fort.'),
+    ("leave", 'Verlasse die Funktion.'),
+    ("todo", '...'),
+    ("block", ':\n\tDie Zahl innen ist 1.\n'),
+    ("funcdef", 'Die Funktion spaeter_da macht:\n\tGib 1 zurück.\n'),
+    ("struct", 'Wir nennen die Kombination aus\n\tder Zahl q mit Standardwert 0,\neinen Neuling, und erstellen sie so:\n\t"ein Neuling"\n'),
+    ("func", 'Die Funktion mittendrin gibt nichts zurück, macht:\n\tVerlasse die Funktion.\nUnd kann so benutzt werden:\n\t"mittendrin"\n'),
+]
+
+
 def token_mutants(text, toks, rng, limit=None, pairs=0):
     """text: str, toks: [(a, e, ty)] in code point offsets. Yields (kind, mutated text)"""
     n = len(toks)
@@ -114,6 +357,23 @@ def token_mutants(text, toks, rng, limit=None, pairs=0):
         if j < n:
             aj, ej, _ = toks[j]
             muts.append(("splice:%d>%d" % (i, j), text[:a] + text[e:ej] + " " + text[a:e] + text[ej:]))
+    # substitution: a token replaced by the text of another token of the same type (a name of another kind, another literal)
+    bytype = {}
+    for i, (a, e, ty) in enumerate(toks):
+        bytype.setdefault(ty, []).append(i)
+    for i in range(n):
+        a, e, ty = toks[i]
+        others = [j for j in bytype[ty] if text[toks[j][0]:toks[j][1]] != text[a:e]]
+        if not others:
+            continue
+        for j in rng.sample(others, min(2, len(others))):
+            muts.append(("subst:%d<%d" % (i, j), text[:a] + text[toks[j][0]:toks[j][1]] + text[e:]))
+    # transplant: a whole statement of another kind placed where a statement (or the single statement of a Wenn / loop) may start
+    for i in range(n):
+        a, e, _ = toks[i]
+        if text[a:e] in (",", ":", "."):
+            sn = rng.choice(SNIPPETS)
+            muts.append(("transplant:%d:%s" % (i, sn[0]), text[:e] + " " + sn[1] + " " + text[e:]))
     for _ in range(pairs):
         if n < 8:
             break
